@@ -420,6 +420,15 @@ def check_bindings_go_through_printer(ctx: Ctx, rule: str):
                 for i, p_ in enumerate(parts):
                     if isinstance(p_, ast.Constant) and isinstance(p_.value, str) and re.match(r"^\s*(:[^=]*)?=(?!=)", p_.value) and i > 0 and isinstance(parts[i - 1], ast.FormattedValue):
                         v = parts[i - 1].value
+                        if isinstance(v, ast.Name):
+                            # a local that holds printed text: every binding of it in the method is a printer call
+                            binds = [n_.value for n_ in ast.walk(f.node) if isinstance(n_, ast.Assign) and any(isinstance(t_, ast.Name) and t_.id == v.id for t_ in n_.targets)]
+                            if binds and all(isinstance(b_, ast.Call) and (dotted(b_.func) or "").split(".")[-1] in ("doprint", "_print", "_doprint") for b_ in binds):
+                                continue
+                            if v.id in ("prefix", "variable_prefix") or v.id.isupper():
+                                continue
+                        if isinstance(v, ast.Attribute) and v.attr in ("variable_prefix",):
+                            continue
                         printed = isinstance(v, ast.Call) and (dotted(v.func) or "").split(".")[-1] in ("doprint", "_print", "_doprint")
                         if not printed and not isinstance(v, ast.Constant):
                             bad = (js, v)
